@@ -87,7 +87,8 @@ def run(ck):
                                 at = res[name].term.single_atom()
                                 if at is not None and at.op == "sigmoid":
                                     pre_C.add(at.args[0])
-                        ck.check(pre_E == pre_C, "C05.R1", cls + ":energy<->conditionals", prog.method(cls, "effective_energy").site(),
+                        same = (pre_E == pre_C) if (pre_E and pre_C) else None  # an energy not written with softplus is not judged here (C01.R4 / C02.R5 do)
+                        ck.check(same, "C05.R1", cls + ":energy<->conditionals", prog.method(cls, "effective_energy").site(),
                                  "softplus arguments of the effective energy %s differ from the hidden-layer pre-activations of the Gibbs conditionals %s" % (sorted(map(repr, pre_E)), sorted(map(repr, pre_C))))
         # ------------------------------------------------------------ R2 step structure, R3 overwrite
         gsite = prog.method(cls, "gibbs_steps").site()
